@@ -13,14 +13,25 @@ namespace Sipsp
 
 /-! ### (1) the line up to the colon, whatever follows -/
 
+theorem ht_runStep_pos {σ : Type} (m : Machine σ) (b : Buf) (i i2 : Nat) (S : Step σ)
+    (h : ∀ i' st, S = .cont i' st → i < i' ∧ i2 < i') : runStep m b i S = runStep m b i2 S := by
+  cases S with
+  | done o e st => rfl
+  | cont i' st =>
+    have := h i' st rfl
+    show (if i < i' then runLoop m b i' st else (i, Err.lbug, st)) =
+      (if i2 < i' then runLoop m b i' st else (i2, Err.lbug, st))
+    rw [if_pos this.1, if_pos this.2]
+
 /-- the name `[o, n)`, optional spaces / tabs, the colon at `c`: ParseHdrLine arrives at the code after the colon
-    (`hlAfterColon` at `c + 1`) with the name recorded; if that code finishes the line (typed path), its result is
-    the result of ParseHdrLine -/
-theorem ht_prefix_done (b : Buf) (o n c : Nat) (hb : Option PHdrVals) (hfit : b.size ≤ 65535)
+    (`hlAfterColon` at `c + 1`) with the name recorded, and goes on with what that code says -/
+theorem ht_prefix (b : Buf) (o n c : Nat) (hb : Option PHdrVals) (hfit : b.size ≤ 65535)
     (hname : NameRun b o n) (hon : o < n) (hws : WsRun b n c) (hnc : n ≤ c) (hcolon : b[c]? = some 58)
-    {o' : Nat} {e' : Err} {h' : Hdr} {hb' : Option PHdrVals}
-    (hafter : hlAfterColon b (c + 1) (hdrAt 0 o n {} .bodyStart) hb = .done o' e' (h', hb')) :
-    parseHdrLine b o {} hb = (o', e', h', hb') := by
+    (S : Step HLσ) (hafter : hlAfterColon b (c + 1) (hdrAt 0 o n {} .bodyStart) hb = S)
+    (hS : ∀ i' st, S = .cont i' st → i' = c + 1) :
+    parseHdrLine b o {} hb =
+      ((runStep hlMachine b c S).1, (runStep hlMachine b c S).2.1, (runStep hlMachine b c S).2.2.1,
+        (runStep hlMachine b c S).2.2.2) := by
   have hcl := get?_lt hcolon
   obtain ⟨c0, h0, hl0, _⟩ := hname o (Nat.le_refl _) hon
   have hc013 : (c0 == 13) = false := by
@@ -67,23 +78,51 @@ theorem ht_prefix_done (b : Buf) (o n c : Nat) (hb : Option PHdrVals) (hfit : b.
     obtain ⟨y, hy⟩ := hn1
     have hskw : skipWS b (n + 1) = c :=
       skipWS_run b (n + 1) c (by omega) (fun k h1 h2 => hws k (by omega) h2) hcolon (by decide)
-    have hstep2 : hlStep b (n + 1) y (hdrAt 0 o n {} .nameEnd, hb) = .done o' e' (h', hb') := by
+    have hstep2 : hlStep b (n + 1) y (hdrAt 0 o n {} .nameEnd, hb) = S := by
       unfold hlStep
       show (match (hdrAt 0 o n {} .nameEnd).state with | _ => _) = _
       unfold hdrAt
       simp only [hskw, hcolon, beq_self_eq_true, ↓reduceIte]
       exact hafter
-    rw [runLoop_done hlMachine hy (by exact hstep2)]
+    rw [runLoop_eq_runStep hlMachine _ hy]
+    show (match runStep hlMachine b (n + 1) (hlStep b (n + 1) y (hdrAt 0 o n {} .nameEnd, hb)) with
+      | (o, e, (h', hb')) => (o, e, h', hb')) = _
+    rw [hstep2, ht_runStep_pos hlMachine b (n + 1) c S (fun i' st h => by have := hS i' st h; omega)]
   · subst heq
     subst h58
-    have hstep1 : hlStep b o c0 (({} : Hdr), hb) = .done o' e' (h', hb') := by
+    have hstep1 : hlStep b o c0 (({} : Hdr), hb) = S := by
       unfold hlStep
       simp only [hc013, hc010, Bool.false_eq_true, ↓reduceIte]
       unfold hlName
       have hw58 : isWS (58 : UInt8) = false := by decide
       simp only [hsk, hcn, hw58, beq_self_eq_true, ↓reduceIte, hnm, hxp, hne, Bool.false_eq_true, Bool.or_self]
       exact hafter
-    rw [runLoop_done hlMachine h0 (by exact hstep1)]
+    rw [runLoop_eq_runStep hlMachine _ h0]
+    show (match runStep hlMachine b o (hlStep b o c0 (({} : Hdr), hb)) with
+      | (o, e, (h', hb')) => (o, e, h', hb')) = _
+    rw [hstep1, ht_runStep_pos hlMachine b o n S (fun i' st h => by have := hS i' st h; omega)]
+
+/-- … if that code finishes the line (typed path), its result is the result of ParseHdrLine -/
+theorem ht_prefix_done (b : Buf) (o n c : Nat) (hb : Option PHdrVals) (hfit : b.size ≤ 65535)
+    (hname : NameRun b o n) (hon : o < n) (hws : WsRun b n c) (hnc : n ≤ c) (hcolon : b[c]? = some 58)
+    {o' : Nat} {e' : Err} {h' : Hdr} {hb' : Option PHdrVals}
+    (hafter : hlAfterColon b (c + 1) (hdrAt 0 o n {} .bodyStart) hb = .done o' e' (h', hb')) :
+    parseHdrLine b o {} hb = (o', e', h', hb') := by
+  rw [ht_prefix b o n c hb hfit hname hon hws hnc hcolon _ hafter (fun i' st h => by cases h)]
+  rfl
+
+/-- … and if it hands the line back to the generic value scanner, ParseHdrLine is that scanner run from `c + 1` -/
+theorem ht_prefix_cont (b : Buf) (o n c : Nat) (hb : Option PHdrVals) (hfit : b.size ≤ 65535)
+    (hname : NameRun b o n) (hon : o < n) (hws : WsRun b n c) (hnc : n ≤ c) (hcolon : b[c]? = some 58)
+    {st : HLσ} (hafter : hlAfterColon b (c + 1) (hdrAt 0 o n {} .bodyStart) hb = .cont (c + 1) st) :
+    parseHdrLine b o {} hb =
+      ((runLoop hlMachine b (c + 1) st).1, (runLoop hlMachine b (c + 1) st).2.1, (runLoop hlMachine b (c + 1) st).2.2.1,
+        (runLoop hlMachine b (c + 1) st).2.2.2) := by
+  rw [ht_prefix b o n c hb hfit hname hon hws hnc hcolon _ hafter (fun i' st' h => by cases h; rfl)]
+  have : runStep hlMachine b c (.cont (c + 1) st) = runLoop hlMachine b (c + 1) st := by
+    show (if c < c + 1 then runLoop hlMachine b (c + 1) st else (c, Err.lbug, st)) = _
+    rw [if_pos (by omega)]
+  rw [this]
 
 /-- the header reported on the typed path: finished with the value parser's span when the verdict is OK; otherwise
     the header stays in the state of its value parser (the caller resumes or gives up) with no value -/
@@ -185,5 +224,1048 @@ theorem ht_pb_pai (b : Buf) (i : Nat) (h : Hdr) (hv : PHdrVals) (ht : h.type = H
   unfold parseBody
   unfold PPAIs.htBump at hp
   simp +decide only [ht, hst, hp, ↓reduceIte]
+
+/-! #### (1) the typed path of ParseHdrLine, one theorem per type
+
+  For a line `name [SP/HT] ":" <anything>` whose name classifies as one of the eight types, parsed into a new header
+  object with a values object whose component for that type is not yet parsed: ParseHdrLine returns exactly what the
+  value parser returns when started right after the colon (it skips the leading linear white space itself, see
+  `ht_*_lead_lws` below) — same verdict, same offset; the header has the name as written, the type, the value parser's
+  span as `val` and is finished when the verdict is OK (otherwise no value, and it stays in the state of that value
+  parser); the values object is updated in that one component only. -/
+
+theorem ht_line_from (b : Buf) (o n c : Nat) (hv : PHdrVals) (hfit : b.size ≤ 65535)
+    (hname : NameRun b o n) (hon : o < n) (hws : WsRun b n c) (hnc : n ≤ c) (hcolon : b[c]? = some 58)
+    (ht : getHdrType (b.extract o n) = HdrFrom) (hnp : hv.from_.parsed = false) {n' : Nat} {e : Err} {f : PFromBody}
+    (hp : parseFromVal b (c + 1) hv.from_ = (n', e, f)) :
+    parseHdrLine b o {} (some hv) = (n', e, htHdr HdrFrom o n .hFrom e f.v, some { hv with from_ := f }) := by
+  have hcl := get?_lt hcolon
+  have hpb := ht_pb_from b (c + 1) (hdrAt (getHdrType (b.extract o n)) o n {} .bodyStart) hv ht hnp hp
+  have hafter := ht_after_typed b o n (c + 1) (some hv) _ hon (by omega) hfit .hFrom (by decide) n' e (f.v) hpb
+  rw [ht] at hafter
+  exact ht_prefix_done b o n c (some hv) hfit hname hon hws hnc hcolon hafter
+
+theorem ht_line_to (b : Buf) (o n c : Nat) (hv : PHdrVals) (hfit : b.size ≤ 65535)
+    (hname : NameRun b o n) (hon : o < n) (hws : WsRun b n c) (hnc : n ≤ c) (hcolon : b[c]? = some 58)
+    (ht : getHdrType (b.extract o n) = HdrTo) (hnp : hv.to.parsed = false) {n' : Nat} {e : Err} {f : PFromBody}
+    (hp : parseNameAddrPVal HdrTo b (c + 1) hv.to = (n', e, f)) :
+    parseHdrLine b o {} (some hv) = (n', e, htHdr HdrTo o n .hTo e f.v, some { hv with to := f }) := by
+  have hcl := get?_lt hcolon
+  have hpb := ht_pb_to b (c + 1) (hdrAt (getHdrType (b.extract o n)) o n {} .bodyStart) hv ht hnp hp
+  have hafter := ht_after_typed b o n (c + 1) (some hv) _ hon (by omega) hfit .hTo (by decide) n' e (f.v) hpb
+  rw [ht] at hafter
+  exact ht_prefix_done b o n c (some hv) hfit hname hon hws hnc hcolon hafter
+
+theorem ht_line_callid (b : Buf) (o n c : Nat) (hv : PHdrVals) (hfit : b.size ≤ 65535)
+    (hname : NameRun b o n) (hon : o < n) (hws : WsRun b n c) (hnc : n ≤ c) (hcolon : b[c]? = some 58)
+    (ht : getHdrType (b.extract o n) = HdrCallID) (hnp : hv.callid.parsed = false) {n' : Nat} {e : Err} {f : PCallIDBody}
+    (hp : parseCallIDVal b (c + 1) hv.callid = (n', e, f)) :
+    parseHdrLine b o {} (some hv) = (n', e, htHdr HdrCallID o n .hCallID e f.callID, some { hv with callid := f }) := by
+  have hcl := get?_lt hcolon
+  have hpb := ht_pb_callid b (c + 1) (hdrAt (getHdrType (b.extract o n)) o n {} .bodyStart) hv ht hnp hp
+  have hafter := ht_after_typed b o n (c + 1) (some hv) _ hon (by omega) hfit .hCallID (by decide) n' e (f.callID) hpb
+  rw [ht] at hafter
+  exact ht_prefix_done b o n c (some hv) hfit hname hon hws hnc hcolon hafter
+
+theorem ht_line_cseq (b : Buf) (o n c : Nat) (hv : PHdrVals) (hfit : b.size ≤ 65535)
+    (hname : NameRun b o n) (hon : o < n) (hws : WsRun b n c) (hnc : n ≤ c) (hcolon : b[c]? = some 58)
+    (ht : getHdrType (b.extract o n) = HdrCSeq) (hnp : hv.cseq.parsed = false) {n' : Nat} {e : Err} {f : PCSeqBody}
+    (hp : parseCSeqVal b (c + 1) hv.cseq = (n', e, f)) :
+    parseHdrLine b o {} (some hv) = (n', e, htHdr HdrCSeq o n .hCSeq e f.v, some { hv with cseq := f }) := by
+  have hcl := get?_lt hcolon
+  have hpb := ht_pb_cseq b (c + 1) (hdrAt (getHdrType (b.extract o n)) o n {} .bodyStart) hv ht hnp hp
+  have hafter := ht_after_typed b o n (c + 1) (some hv) _ hon (by omega) hfit .hCSeq (by decide) n' e (f.v) hpb
+  rw [ht] at hafter
+  exact ht_prefix_done b o n c (some hv) hfit hname hon hws hnc hcolon hafter
+
+theorem ht_line_clen (b : Buf) (o n c : Nat) (hv : PHdrVals) (hfit : b.size ≤ 65535)
+    (hname : NameRun b o n) (hon : o < n) (hws : WsRun b n c) (hnc : n ≤ c) (hcolon : b[c]? = some 58)
+    (ht : getHdrType (b.extract o n) = HdrCLen) (hnp : hv.clen.parsed = false) {n' : Nat} {e : Err} {f : PUIntBody}
+    (hp : parseCLenVal b (c + 1) hv.clen = (n', e, f)) :
+    parseHdrLine b o {} (some hv) = (n', e, htHdr HdrCLen o n .hCLen e f.sVal, some { hv with clen := f }) := by
+  have hcl := get?_lt hcolon
+  have hpb := ht_pb_clen b (c + 1) (hdrAt (getHdrType (b.extract o n)) o n {} .bodyStart) hv ht hnp hp
+  have hafter := ht_after_typed b o n (c + 1) (some hv) _ hon (by omega) hfit .hCLen (by decide) n' e (f.sVal) hpb
+  rw [ht] at hafter
+  exact ht_prefix_done b o n c (some hv) hfit hname hon hws hnc hcolon hafter
+
+theorem ht_line_expires (b : Buf) (o n c : Nat) (hv : PHdrVals) (hfit : b.size ≤ 65535)
+    (hname : NameRun b o n) (hon : o < n) (hws : WsRun b n c) (hnc : n ≤ c) (hcolon : b[c]? = some 58)
+    (ht : getHdrType (b.extract o n) = HdrExpires) (hnp : hv.expires.parsed = false) {n' : Nat} {e : Err} {f : PUIntBody}
+    (hp : parseUIntVal b (c + 1) hv.expires = (n', e, f)) :
+    parseHdrLine b o {} (some hv) = (n', e, htHdr HdrExpires o n .hExpires e f.sVal, some { hv with expires := f }) := by
+  have hcl := get?_lt hcolon
+  have hpb := ht_pb_expires b (c + 1) (hdrAt (getHdrType (b.extract o n)) o n {} .bodyStart) hv ht hnp hp
+  have hafter := ht_after_typed b o n (c + 1) (some hv) _ hon (by omega) hfit .hExpires (by decide) n' e (f.sVal) hpb
+  rw [ht] at hafter
+  exact ht_prefix_done b o n c (some hv) hfit hname hon hws hnc hcolon hafter
+
+theorem ht_line_contact (b : Buf) (o n c : Nat) (hv : PHdrVals) (hfit : b.size ≤ 65535)
+    (hname : NameRun b o n) (hon : o < n) (hws : WsRun b n c) (hnc : n ≤ c) (hcolon : b[c]? = some 58)
+    (ht : getHdrType (b.extract o n) = HdrContact) {n' : Nat} {e : Err} {f : PContacts}
+    (hp : parseAllContactValues b (c + 1) hv.contacts.htBump = (n', e, f)) :
+    parseHdrLine b o {} (some hv) = (n', e, htHdr HdrContact o n .hContact e f.lastHVal, some { hv with contacts := f }) := by
+  have hcl := get?_lt hcolon
+  have hpb := ht_pb_contact b (c + 1) (hdrAt (getHdrType (b.extract o n)) o n {} .bodyStart) hv ht rfl hp
+  have hafter := ht_after_typed b o n (c + 1) (some hv) _ hon (by omega) hfit .hContact (by decide) n' e (f.lastHVal) hpb
+  rw [ht] at hafter
+  exact ht_prefix_done b o n c (some hv) hfit hname hon hws hnc hcolon hafter
+
+theorem ht_line_pai (b : Buf) (o n c : Nat) (hv : PHdrVals) (hfit : b.size ≤ 65535)
+    (hname : NameRun b o n) (hon : o < n) (hws : WsRun b n c) (hnc : n ≤ c) (hcolon : b[c]? = some 58)
+    (ht : getHdrType (b.extract o n) = HdrPAI) {n' : Nat} {e : Err} {f : PPAIs}
+    (hp : parseAllPAIValues b (c + 1) hv.pais.htBump = (n', e, f)) :
+    parseHdrLine b o {} (some hv) = (n', e, htHdr HdrPAI o n .hPAI e f.lastHVal, some { hv with pais := f }) := by
+  have hcl := get?_lt hcolon
+  have hpb := ht_pb_pai b (c + 1) (hdrAt (getHdrType (b.extract o n)) o n {} .bodyStart) hv ht rfl hp
+  have hafter := ht_after_typed b o n (c + 1) (some hv) _ hon (by omega) hfit .hPAI (by decide) n' e (f.lastHVal) hpb
+  rw [ht] at hafter
+  exact ht_prefix_done b o n c (some hv) hfit hname hon hws hnc hcolon hafter
+
+/-! ### the value parsers skip the linear white space in front of the value -/
+
+theorem ht_lwsStd_ok {σ : Type} {b : Buf} {i n : Nat} (st : σ) (eoh : σ → Nat → Nat → Nat → Nat × Err × σ)
+    (mb : σ → σ) (hs : skipLWS b i 0 = (n, 0, .ok)) : lwsStd b i st eoh mb = .cont n st := by
+  unfold lwsStd; rw [hs]
+
+theorem ht_lwsStd_eoh {σ : Type} {b : Buf} {i p crl : Nat} (st : σ) (eoh : σ → Nat → Nat → Nat → Nat × Err × σ)
+    (mb : σ → σ) (hs : skipLWS b i 0 = (p, crl, .eoh)) :
+    lwsStd b i st eoh mb = .done (eoh st i p crl).1 (eoh st i p crl).2.1 (eoh st i p crl).2.2 := by
+  unfold lwsStd; rw [hs]
+
+/-- generic: a machine whose step on a white-space byte in state `st` is the standard white-space site skips the
+    linear white space in front of a byte that is not white space -/
+theorem ht_skip_lws {σ : Type} (m : Machine σ) (b : Buf) (st : σ) (eoh : σ → Nat → Nat → Nat → Nat × Err × σ)
+    (mb : σ → σ) {w n : Nat} (hl : Lws b w n) {c : UInt8} (hn : b[n]? = some c) (hc : isLWSch c = false)
+    (hstep : ∀ c', isLWSch c' = true → m.step b w c' st = lwsStd b w st eoh mb) :
+    runLoop m b w st = runLoop m b n st := by
+  have hle := hl.le
+  by_cases h1 : w < n
+  · obtain ⟨c0, hc0, hl0⟩ := hl.first h1
+    have hs : m.step b w c0 st = .cont n st := by
+      rw [hstep c0 hl0]; exact ht_lwsStd_ok st eoh mb (skipLWS_of_lws hl hn hc)
+    exact (runLoop_cont m hc0 hs).trans (if_pos h1)
+  · have : w = n := by omega
+    rw [this]
+
+theorem ht_na_lead_lws (h : Nat) (b : Buf) {o0 o : Nat} (hl : Lws b o0 o) {c : UInt8} (hc : b[o]? = some c)
+    (hcl : isLWSch c = false) (pf : PFromBody) (hst : pf.state = .init) :
+    parseNameAddrPVal h b o0 pf = parseNameAddrPVal h b o pf := by
+  have hrun : runLoop (naMachine h) b o0 { pf with s := pf.soffs, soffs := 0 } =
+      runLoop (naMachine h) b o { pf with s := pf.soffs, soffs := 0 } :=
+    na_skip_lws h b _ hl hc hcl (fun c' hc' => stepA_init_lws h b o0 c' _ hst hc')
+  unfold parseNameAddrPVal
+  have hnf : ¬ pf.state = .fin := by rw [hst]; decide
+  rw [if_neg hnf, if_neg hnf]
+  simp only [hrun]
+
+theorem ht_ci_lead_lws (b : Buf) {o0 o : Nat} (hl : Lws b o0 o) {c : UInt8} (hc : b[o]? = some c)
+    (hcl : isLWSch c = false) (st : PCallIDBody) (hst : st.state = .init) :
+    parseCallIDVal b o0 st = parseCallIDVal b o st := by
+  unfold parseCallIDVal
+  have hnf : ¬ st.state = .fin := by rw [hst]; decide
+  rw [if_neg hnf, if_neg hnf]
+  exact ht_skip_lws ciMachine b st ciEOH id hl hc hcl (fun c' hc' => ciStep_lws b o0 c' st hc' (Or.inl hst))
+
+theorem ht_clStep_lws (b : Buf) (j : Nat) (c : UInt8) (st : PUIntBody) (hl : isLWSch c = true)
+    (hs : st.state = .init ∨ st.state = .fend) : clStep b j c st = lwsStd b j st clEOH id := by
+  unfold clStep; rw [if_pos hl]
+  rcases hs with h | h <;> rw [h]
+
+theorem ht_ui_lead_lws (b : Buf) {o0 o : Nat} (hl : Lws b o0 o) {c : UInt8} (hc : b[o]? = some c)
+    (hcl : isLWSch c = false) (st : PUIntBody) (hst : st.state = .init) :
+    parseUIntVal b o0 st = parseUIntVal b o st := by
+  unfold parseUIntVal
+  have hnf : ¬ st.state = .fin := by rw [hst]; decide
+  rw [if_neg hnf, if_neg hnf]
+  exact ht_skip_lws clMachine b st clEOH id hl hc hcl (fun c' hc' => ht_clStep_lws b o0 c' st hc' (Or.inl hst))
+
+theorem ht_clen_lead_lws (b : Buf) {o0 o : Nat} (hl : Lws b o0 o) {c : UInt8} (hc : b[o]? = some c)
+    (hcl : isLWSch c = false) (st : PUIntBody) (hst : st.state = .init) :
+    parseCLenVal b o0 st = parseCLenVal b o st := by
+  unfold parseCLenVal
+  rw [ht_ui_lead_lws b hl hc hcl st hst]
+
+theorem ht_csStep_lws (b : Buf) (j : Nat) (c : UInt8) (st : PCSeqBody) (hl : isLWSch c = true)
+    (hs : st.state = .init ∨ st.state = .endDigit ∨ st.state = .fend) :
+    csStep b j c st = lwsStd b j st (csEOH b) id := by
+  unfold csStep; rw [if_pos hl]
+  rcases hs with h | h | h <;> rw [h]
+
+theorem ht_cs_lead_lws (b : Buf) {o0 o : Nat} (hl : Lws b o0 o) {c : UInt8} (hc : b[o]? = some c)
+    (hcl : isLWSch c = false) (st : PCSeqBody) (hst : st.state = .init) :
+    parseCSeqVal b o0 st = parseCSeqVal b o st := by
+  unfold parseCSeqVal
+  have hnf : ¬ st.state = .fin := by rw [hst]; decide
+  rw [if_neg hnf, if_neg hnf]
+  exact ht_skip_lws csMachine b st (csEOH b) id hl hc hcl (fun c' hc' => ht_csStep_lws b o0 c' st hc' (Or.inl hst))
+
+/-! ### (2) From / To: the value is a name-addr value of the C09 grammar -/
+
+/-- where the reported value span of a name-addr value lies: from the first byte after the leading white space (`s`,
+    not a white-space byte) to the byte `w` at which the end of the value (`Term`: optional white space, then the line
+    end or the comma) begins -/
+theorem ht_navalue_v {h : Nat} {b : Buf} {o0 o' : Nat} {e' : Err} {r : PFromBody} (H : NAValue h b o0 o' e' r) :
+    ∃ s w, r.v = ⟨s, w - s⟩ ∧ Lws b o0 s ∧ s < w ∧ Term h b w o' e' ∧ r.state = .fin := by
+  rcases H with ⟨o, a, g, nm, hl, hp, hu, hag, hg, T, rfl⟩ |
+    ⟨o, a, g, m, w, nm, L, hl, hp, hu, hag, hg, hl2, hm, hL, T, rfl⟩ |
+    ⟨o, t, c, hl, hc, h1, hr, hot, T, rfl⟩ | ⟨o, t, m, w, c, L, hl, hc, h1, hr, hot, hl2, hm, hL, T, rfl⟩
+  · exact ⟨o, g + 1, rfl, hl, by have := hp.le; omega, T, rfl⟩
+  · exact ⟨o, w, rfl, hl, by have := hp.le; have := hl2.le; have := hL.bounds; omega, T, rfl⟩
+  · exact ⟨o, t, rfl, hl, by omega, T, rfl⟩
+  · exact ⟨o, w, rfl, hl, by have := hl2.le; have := hL.bounds; omega, T, rfl⟩
+
+/-- **From**: name, colon, a name-addr value of the C09 grammar (leading linear white space included) ending with
+    the line end; new From object. The header's value is the value span of the name-addr value. -/
+theorem ht_from_value (b : Buf) (o n c o' : Nat) (r : PFromBody) (hv : PHdrVals) (hfit : b.size ≤ 65535)
+    (hname : NameRun b o n) (hon : o < n) (hws : WsRun b n c) (hnc : n ≤ c) (hcolon : b[c]? = some 58)
+    (ht : getHdrType (b.extract o n) = HdrFrom) (hnew : hv.from_ = {})
+    (H : NAValue HdrFrom b (c + 1) o' .ok r) :
+    parseHdrLine b o {} (some hv) = (o', .ok, hdrAt HdrFrom o n r.v .fin, some { hv with from_ := r }) := by
+  have hp : parseFromVal b (c + 1) hv.from_ = (o', .ok, r) := by rw [hnew]; exact H.parse hfit
+  exact ht_line_from b o n c hv hfit hname hon hws hnc hcolon ht (by rw [hnew]; rfl) hp
+
+/-- **To** -/
+theorem ht_to_value (b : Buf) (o n c o' : Nat) (r : PFromBody) (hv : PHdrVals) (hfit : b.size ≤ 65535)
+    (hname : NameRun b o n) (hon : o < n) (hws : WsRun b n c) (hnc : n ≤ c) (hcolon : b[c]? = some 58)
+    (ht : getHdrType (b.extract o n) = HdrTo) (hnew : hv.to = {})
+    (H : NAValue HdrTo b (c + 1) o' .ok r) :
+    parseHdrLine b o {} (some hv) = (o', .ok, hdrAt HdrTo o n r.v .fin, some { hv with to := r }) := by
+  have hp : parseNameAddrPVal HdrTo b (c + 1) hv.to = (o', .ok, r) := by rw [hnew]; exact H.parse hfit
+  exact ht_line_to b o n c hv hfit hname hon hws hnc hcolon ht (by rw [hnew]; rfl) hp
+
+/-! ### (2) Contact / P-Asserted-Identity: one header line -/
+
+/-- the running extent of a line after one more value -/
+def htLhvStep (l : PField) (r : PFromBody) : PField := if l.isEmpty then r.v else l.extend r.v.endT
+
+/-- the extent of a list of values: from the start of the first value to the end of the last one -/
+def htSpan (rs : List PFromBody) : PField :=
+  match rs.head?, rs.getLast? with
+  | some f, some l => ⟨f.v.offs, l.v.offs + l.v.len - f.v.offs⟩
+  | _, _ => {}
+
+theorem ht_next_scalars (c : PContacts) (r : PFromBody) :
+    (c.next r).hNo = ((c.setCur r).account r).hNo ∧ (c.next r).lastHVal = ((c.setCur r).account r).lastHVal := by
+  unfold PContacts.next; split <;> exact ⟨rfl, rfl⟩
+
+theorem ht_step_lhv (c : PContacts) (r : PFromBody) :
+    ((c.setCur r).account r).lastHVal = htLhvStep c.lastHVal r := by
+  rw [account_lhv, (setCur_scalars c r).2.2.2.1]; rfl
+
+theorem ht_ctAcceptAll_lhv (c : PContacts) (rs : List PFromBody) :
+    (c.acceptAll rs).lastHVal = rs.foldl htLhvStep c.lastHVal := by
+  induction rs generalizing c with
+  | nil => rfl
+  | cons r rs ih =>
+    cases rs with
+    | nil => show ((c.setCur r).account r).lastHVal = _; rw [ht_step_lhv]; rfl
+    | cons r2 rs' => rw [acceptAll_cons2, ih, (ht_next_scalars c r).2, ht_step_lhv]; rfl
+
+theorem ht_ctAcceptAll_hNo (c : PContacts) (rs : List PFromBody) : (c.acceptAll rs).hNo = c.hNo := by
+  induction rs generalizing c with
+  | nil => rfl
+  | cons r rs ih =>
+    cases rs with
+    | nil => show ((c.setCur r).account r).hNo = _; rw [account_hNo, (setCur_scalars c r).1]
+    | cons r2 rs' => rw [acceptAll_cons2, ih, (ht_next_scalars c r).1, account_hNo, (setCur_scalars c r).1]
+
+theorem ht_lhvStep_ext (s0 w0 s w : Nat) (r : PFromBody) (hr : r.v = ⟨s, w - s⟩) (h0 : s0 < w0) (h1 : w0 ≤ s)
+    (h2 : s < w) (h3 : w ≤ 65535) : htLhvStep ⟨s0, w0 - s0⟩ r = ⟨s0, w - s0⟩ := by
+  unfold htLhvStep
+  have hne : (({ offs := s0, len := w0 - s0 } : PField).isEmpty) = false := by
+    unfold PField.isEmpty; simp; omega
+  rw [hne]
+  simp only [Bool.false_eq_true, ↓reduceIte]
+  have hend : r.v.endT = w := by
+    rw [hr]; unfold PField.endT; simp only
+    rw [trunc16_id (by omega)]; omega
+  rw [hend]
+  exact extend_eq ⟨s0, w0 - s0⟩ w (by show s0 ≤ w; omega) h3
+
+/-- the running extent over the values of a list, starting from a non-empty extent that ends before the list -/
+theorem ht_lhv_fold {h : Nat} {b : Buf} {o o' : Nat} {rs : List PFromBody} (H : ValList h b o rs o')
+    (hfit : b.size ≤ 65535) :
+    ∀ s0 w0, s0 < w0 → w0 ≤ o →
+      ∃ l, rs.getLast? = some l ∧ rs.foldl htLhvStep ⟨s0, w0 - s0⟩ = ⟨s0, l.v.offs + l.v.len - s0⟩ := by
+  induction H with
+  | last o o' r hv =>
+    intro s0 w0 h0 h1
+    obtain ⟨s, w, hr, hl, hsw, T, _⟩ := ht_navalue_v hv
+    have := hl.le; have := T.range
+    refine ⟨r, rfl, ?_⟩
+    show htLhvStep ⟨s0, w0 - s0⟩ r = _
+    rw [ht_lhvStep_ext s0 w0 s w r hr h0 (by omega) hsw (by omega), hr]
+    show (⟨s0, w - s0⟩ : PField) = ⟨s0, s + (w - s) - s0⟩
+    congr 1; omega
+  | cons o o1 o' r rs hv hrest ih =>
+    intro s0 w0 h0 h1
+    obtain ⟨s, w, hr, hl, hsw, T, _⟩ := ht_navalue_v hv
+    have := hl.le; have := T.range
+    obtain ⟨l, hl1, hl2⟩ := ih s0 w (by omega) (by omega)
+    refine ⟨l, ?_, ?_⟩
+    · cases rs with
+      | nil => exact absurd rfl hrest.ne_nil
+      | cons r2 rs' => simpa using hl1
+    · show rs.foldl htLhvStep (htLhvStep ⟨s0, w0 - s0⟩ r) = _
+      rw [ht_lhvStep_ext s0 w0 s w r hr h0 (by omega) hsw (by omega), hl2]
+
+/-- the last value of a list: its span, and the end of the line after it -/
+theorem ht_vallist_last {h : Nat} {b : Buf} {o o' : Nat} {rs : List PFromBody} (H : ValList h b o rs o') :
+    ∃ l sl wl, rs.getLast? = some l ∧ l.v = ⟨sl, wl - sl⟩ ∧ o ≤ sl ∧ sl < wl ∧ Term h b wl o' .ok := by
+  induction H with
+  | last o2 o3 r3 hv3 =>
+    obtain ⟨s3, w3, hr3, hl3, hsw3, T3, _⟩ := ht_navalue_v hv3
+    exact ⟨r3, s3, w3, rfl, hr3, hl3.le, hsw3, T3⟩
+  | cons o2 o3 o4 r3 rs3 hv3 hrest3 ih3 =>
+    have hr3 := hv3.range
+    obtain ⟨l, sl, wl, h0, h1, h2, h3, h4⟩ := ih3
+    refine ⟨l, sl, wl, ?_, h1, by omega, h3, h4⟩
+    cases rs3 with
+    | nil => exact absurd rfl hrest3.ne_nil
+    | cons r4 rs4 => simpa using h0
+
+/-- **the running extent of a header line**: starting from the cleared extent, after the values of the line it spans
+    from the start of the first value to the end of the last value; the span begins after the leading white space, is
+    not empty and ends where the end of the last value (`Term`: optional white space and the line end) begins -/
+theorem ht_lhv_line {h : Nat} {b : Buf} {o o' : Nat} {rs : List PFromBody} (H : ValList h b o rs o')
+    (hfit : b.size ≤ 65535) :
+    rs.foldl htLhvStep {} = htSpan rs ∧
+    ∃ s w, htSpan rs = ⟨s, w - s⟩ ∧ Lws b o s ∧ s < w ∧ Term h b w o' .ok := by
+  cases H with
+  | last _ _ r hv =>
+    obtain ⟨s, w, hr, hl, hsw, T, _⟩ := ht_navalue_v hv
+    have e1 : [r].foldl htLhvStep {} = r.v := rfl
+    have e2 : htSpan [r] = ⟨s, w - s⟩ := by
+      show (⟨r.v.offs, r.v.offs + r.v.len - r.v.offs⟩ : PField) = _
+      rw [hr]; show (⟨s, s + (w - s) - s⟩ : PField) = _
+      congr 1; omega
+    exact ⟨by rw [e1, e2, hr], s, w, e2, hl, hsw, T⟩
+  | cons _ o1 _ r rs' hv hrest =>
+    obtain ⟨s, w, hr, hl, hsw, T, _⟩ := ht_navalue_v hv
+    have := hl.le; have := T.range
+    obtain ⟨l, hl1, hl2⟩ := ht_lhv_fold hrest hfit s w hsw (by omega)
+    have hfold : (r :: rs').foldl htLhvStep {} = ⟨s, l.v.offs + l.v.len - s⟩ := by
+      show rs'.foldl htLhvStep (htLhvStep {} r) = _
+      have : htLhvStep {} r = ⟨s, w - s⟩ := by rw [← hr]; rfl
+      rw [this, hl2]
+    have hlast : (r :: rs').getLast? = some l := by
+      cases rs' with
+      | nil => exact absurd rfl hrest.ne_nil
+      | cons r2 rs'' => simpa using hl1
+    have hspan : htSpan (r :: rs') = ⟨s, l.v.offs + l.v.len - s⟩ := by
+      unfold htSpan
+      rw [hlast]
+      show (⟨r.v.offs, l.v.offs + l.v.len - r.v.offs⟩ : PField) = _
+      rw [hr]
+    obtain ⟨l', sl, wl, hl1', hlv, hosl, hslwl, Tl⟩ := ht_vallist_last hrest
+    have : l = l' := by rw [hl1] at hl1'; exact Option.some.inj hl1'
+    subst this
+    have hend : l.v.offs + l.v.len = wl := by rw [hlv]; show sl + (wl - sl) = wl; omega
+    refine ⟨by rw [hfold, hspan], s, wl, by rw [hspan, hend], hl, by omega, Tl⟩
+
+/-- the wrapper's normalisation of the scratch slot commutes with the per-line bump -/
+theorem ht_bump_wrap (c : PContacts) : c.htBump.wrap = c.wrap.htBump := by
+  unfold PContacts.htBump PContacts.wrap; split <;> rfl
+
+/-- the contacts object between two header lines: after the wrapper's normalisation the unused slots are clear -/
+def HtCtReady (c : PContacts) : Prop := CtClean c.wrap ∧ c.wrap.cur = {}
+
+/-- what one Contact header line with the values `rs` does to the contacts object -/
+def PContacts.htLine (c : PContacts) (rs : List PFromBody) : PContacts := c.htBump.wrap.acceptAll rs
+
+theorem ht_ready_new (k : Nat) : HtCtReady ({ vals := Array.replicate k {} } : PContacts) := by
+  have hw : (({ vals := Array.replicate k {} } : PContacts)).wrap = { vals := Array.replicate k {} } := by
+    unfold PContacts.wrap; simp [PFromBody.parsed]
+  unfold HtCtReady; rw [hw]; exact ct_new_ok k
+
+theorem ht_parseAllContacts (b : Buf) (hfit : b.size ≤ 65535) {o o' : Nat} {rs : List PFromBody}
+    (H : ValList HdrContact b o rs o') (c : PContacts) (hr : HtCtReady c) :
+    parseAllContactValues b o c.htBump = (o', .ok, c.htLine rs) := by
+  rw [parseAllContactValues_eq_wrap]
+  unfold PContacts.htLine
+  rw [ht_bump_wrap]
+  exact contactsLoop_list b hfit H c.wrap.htBump hr.1 hr.2
+
+/-- **Contact**: name, colon, a comma-separated list of name-addr values of the C09 grammar ending with the line end.
+    The header's value runs from the start of the first value to the end of the last one (`htSpan`, see
+    `ht_lhv_line`); the contacts object is `htLine` of the old one: header counter bumped, values accepted in order. -/
+theorem ht_contact_values (b : Buf) (o n c o' : Nat) (rs : List PFromBody) (hv : PHdrVals) (hfit : b.size ≤ 65535)
+    (hname : NameRun b o n) (hon : o < n) (hws : WsRun b n c) (hnc : n ≤ c) (hcolon : b[c]? = some 58)
+    (ht : getHdrType (b.extract o n) = HdrContact) (hr : HtCtReady hv.contacts)
+    (H : ValList HdrContact b (c + 1) rs o') :
+    parseHdrLine b o {} (some hv) =
+      (o', .ok, hdrAt HdrContact o n (htSpan rs) .fin, some { hv with contacts := hv.contacts.htLine rs }) := by
+  have hp := ht_parseAllContacts b hfit H hv.contacts hr
+  have := ht_line_contact b o n c hv hfit hname hon hws hnc hcolon ht hp
+  rw [this, htHdr_ok]
+  have hl : (hv.contacts.htLine rs).lastHVal = htSpan rs := by
+    unfold PContacts.htLine
+    rw [ht_ctAcceptAll_lhv, ht_bump_wrap]
+    exact (ht_lhv_line H hfit).1
+  rw [hl]
+
+/-! #### P-Asserted-Identity -/
+
+theorem ht_paStep_lhv (c : PPAIs) (r : PFromBody) :
+    ((c.setCur r).account r).lastHVal = htLhvStep c.lastHVal r := by
+  rw [paAccount_lhv, (paSetCur_scalars c r).2.1]; rfl
+
+theorem ht_paAcceptAll_lhv (c : PPAIs) (rs : List PFromBody) :
+    (c.acceptAll rs).lastHVal = rs.foldl htLhvStep c.lastHVal := by
+  induction rs generalizing c with
+  | nil => rfl
+  | cons r rs ih =>
+    cases rs with
+    | nil => show ((c.setCur r).account r).lastHVal = _; rw [ht_paStep_lhv]; rfl
+    | cons r2 rs' =>
+      show ((c.next r).acceptAll (r2 :: rs')).lastHVal = _
+      rw [ih, (paNext_scalars c r).2.1, ht_paStep_lhv]; rfl
+
+theorem ht_paAcceptAll_hNo (c : PPAIs) (rs : List PFromBody) : (c.acceptAll rs).hNo = c.hNo := by
+  induction rs generalizing c with
+  | nil => rfl
+  | cons r rs ih =>
+    cases rs with
+    | nil => show ((c.setCur r).account r).hNo = _; rw [paAccount_hNo, (paSetCur_scalars c r).1]
+    | cons r2 rs' =>
+      show ((c.next r).acceptAll (r2 :: rs')).hNo = _
+      rw [ih, (paNext_scalars c r).1, paAccount_hNo, (paSetCur_scalars c r).1]
+
+theorem ht_paBump_wrap (c : PPAIs) : c.htBump.wrap = c.wrap.htBump := by
+  unfold PPAIs.htBump PPAIs.wrap; split <;> rfl
+
+def HtPaReady (c : PPAIs) : Prop := PaClean c.wrap ∧ c.wrap.cur = {}
+
+/-- what one P-Asserted-Identity header line with the values `rs` does to the object -/
+def PPAIs.htLine (c : PPAIs) (rs : List PFromBody) : PPAIs := c.htBump.wrap.acceptAll rs
+
+theorem ht_paReady_new : HtPaReady ({} : PPAIs) := by
+  have hw : (({} : PPAIs)).wrap = {} := by unfold PPAIs.wrap; simp [PFromBody.parsed]
+  unfold HtPaReady; rw [hw]; exact pa_new_ok
+
+theorem ht_parseAllPAIs (b : Buf) (hfit : b.size ≤ 65535) {o o' : Nat} {rs : List PFromBody}
+    (H : ValList HdrPAI b o rs o') (c : PPAIs) (hr : HtPaReady c) :
+    parseAllPAIValues b o c.htBump = (o', .ok, c.htLine rs) := by
+  rw [parseAllPAIValues_eq_wrap]
+  unfold PPAIs.htLine
+  rw [ht_paBump_wrap]
+  exact paisLoop_list b hfit H c.wrap.htBump hr.1 hr.2
+
+/-- **P-Asserted-Identity**: as `ht_contact_values` -/
+theorem ht_pai_values (b : Buf) (o n c o' : Nat) (rs : List PFromBody) (hv : PHdrVals) (hfit : b.size ≤ 65535)
+    (hname : NameRun b o n) (hon : o < n) (hws : WsRun b n c) (hnc : n ≤ c) (hcolon : b[c]? = some 58)
+    (ht : getHdrType (b.extract o n) = HdrPAI) (hr : HtPaReady hv.pais)
+    (H : ValList HdrPAI b (c + 1) rs o') :
+    parseHdrLine b o {} (some hv) =
+      (o', .ok, hdrAt HdrPAI o n (htSpan rs) .fin, some { hv with pais := hv.pais.htLine rs }) := by
+  have hp := ht_parseAllPAIs b hfit H hv.pais hr
+  have := ht_line_pai b o n c hv hfit hname hon hws hnc hcolon ht hp
+  rw [this, htHdr_ok]
+  have hl : (hv.pais.htLine rs).lastHVal = htSpan rs := by
+    unfold PPAIs.htLine
+    rw [ht_paAcceptAll_lhv, ht_paBump_wrap]
+    exact (ht_lhv_line H hfit).1
+  rw [hl]
+
+/-! ### (2) Call-ID: the value is one run of non-white-space bytes -/
+
+theorem ht_tokenrun_run {b : Buf} {i j : Nat} (h : TokenRun b i j) : Run (fun c => !isLWSch c) b i j := by
+  intro k h1 h2
+  obtain ⟨c, hc, hl⟩ := h k h1 h2
+  exact ⟨c, hc, by simp [hl]⟩
+
+/-- **ParseCallIDVal on a well-formed value**: optional linear white space, one run `[v, j)` of bytes other than
+    SP / HT / CR / LF, optional linear white space, the line end (not followed by SP / HT): verdict OK, offset after
+    the line end, the reported Call-ID is exactly the run -/
+theorem ht_callid_run (b : Buf) (i0 v j p e : Nat) (hfit : b.size ≤ 65535) (hl : Lws b i0 v) (ht : TokenRun b v j)
+    (hvj : v < j) (hl2 : Lws b j p) (he : Eol b p e) {c2 : UInt8} (h2 : b[e]? = some c2) (hw2 : isWS c2 = false) :
+    parseCallIDVal b i0 {} = (e, .ok, { callID := ⟨v, j - v⟩, state := .fin }) := by
+  obtain ⟨cv, hv, hcvl⟩ := ht v (Nat.le_refl _) hvj
+  obtain ⟨cj, hj, hcjl⟩ := lws_eol_first hl2 he
+  have hjl := get?_lt hj
+  have hgt := he.gt
+  have hpe := hl2.le
+  rw [ht_ci_lead_lws b hl hv hcvl {} rfl]
+  unfold parseCallIDVal
+  rw [if_neg (by decide)]
+  have hs1 : ciStep b v cv {} = .cont (v + 1) { state := .found, soffs := v } := by
+    unfold ciStep; simp only [hcvl, Bool.false_eq_true, ↓reduceIte]
+  rw [runLoop_cont ciMachine hv (by exact hs1), if_pos (by omega)]
+  have hrun : runLoop ciMachine b (v + 1) ({ state := .found, soffs := v } : PCallIDBody) =
+      runLoop ciMachine b j { state := .found, soffs := v } := by
+    refine runLoop_run ciMachine b (fun c => !isLWSch c) _ (fun k c _ hc => ?_) (v + 1) j (by omega)
+      (ht_tokenrun_run (fun k h1 h2 => ht k (by omega) h2))
+    have hc' : isLWSch c = false := by simpa using hc
+    show ciStep b k c ({ state := .found, soffs := v } : PCallIDBody) = _
+    unfold ciStep; simp only [hc', Bool.false_eq_true, ↓reduceIte]
+  rw [hrun]
+  refine runLoop_done ciMachine hj ?_
+  show ciStep b j cj ({ state := .found, soffs := v } : PCallIDBody) = _
+  unfold ciStep
+  simp only [hcjl, ↓reduceIte]
+  rw [ht_lwsStd_eoh _ ciEOH id (skipLWS_of_lws_eol hl2 he h2 hw2)]
+  unfold ciEOH ciSetCallID
+  simp only [set_eq v j (by omega) (by omega), setPanics_false v j (by omega), Bool.or_false]
+  have : p + (e - p) = e := by omega
+  rw [this]
+
+/-- **Call-ID**: name, colon, a Call-ID value; new Call-ID object. The header's value is the run `[v, j)`. -/
+theorem ht_callid_value (b : Buf) (o n c v j p e : Nat) (hv : PHdrVals) (hfit : b.size ≤ 65535)
+    (hname : NameRun b o n) (hon : o < n) (hws : WsRun b n c) (hnc : n ≤ c) (hcolon : b[c]? = some 58)
+    (ht : getHdrType (b.extract o n) = HdrCallID) (hnew : hv.callid = {})
+    (hl : Lws b (c + 1) v) (htok : TokenRun b v j) (hvj : v < j) (hl2 : Lws b j p) (he : Eol b p e) {c2 : UInt8}
+    (h2 : b[e]? = some c2) (hw2 : isWS c2 = false) :
+    parseHdrLine b o {} (some hv) =
+      (e, .ok, hdrAt HdrCallID o n ⟨v, j - v⟩ .fin,
+        some { hv with callid := { callID := ⟨v, j - v⟩, state := .fin } }) := by
+  have hp : parseCallIDVal b (c + 1) hv.callid = (e, .ok, { callID := ⟨v, j - v⟩, state := .fin }) := by
+    rw [hnew]; exact ht_callid_run b (c + 1) v j p e hfit hl htok hvj hl2 he h2 hw2
+  exact ht_line_callid b o n c hv hfit hname hon hws hnc hcolon ht (by rw [hnew]; rfl) hp
+
+/-! ### (2) Expires / Content-Length: the value is a string of digits -/
+
+theorem ht_digit_not_lws {c : UInt8} (hc : isDigit c = true) : isLWSch c = false := by
+  simp only [isDigit, Bool.and_eq_true, decide_eq_true_eq] at hc
+  simp only [isLWSch, Bool.or_eq_false_iff, beq_eq_false_iff_ne, ne_eq]
+  have h1 := hc.1; have h2 := hc.2
+  rw [UInt8.le_iff_toNat_le] at h1 h2
+  refine ⟨⟨⟨?_, ?_⟩, ?_⟩, ?_⟩ <;> (intro h; rw [h] at h1 h2; simp at h1 h2)
+
+/-- the decimal value of a prefix of a digit string does not exceed the value of the whole string -/
+theorem ht_dec_mono (b : Buf) (v k : Nat) (hvk : v ≤ k) :
+    ∀ d, k + d ≤ b.size → decOf (digitsOf b v k) ≤ decOf (digitsOf b v (k + d)) := by
+  intro d
+  induction d with
+  | zero => intro _; exact Nat.le_refl _
+  | succ d ih =>
+    intro hd
+    have hlt : k + d < b.size := by omega
+    have hb : b[k + d]? = some b[k + d] := Array.getElem?_eq_getElem hlt
+    have : k + (d + 1) = k + d + 1 := by omega
+    have key : ∀ (l : List UInt8) (c : UInt8), decOf (l ++ [c]) = decOf l * 10 + dval c := by
+      intro l c; unfold decOf; exact decFrom_snoc 0 l c
+    rw [this, digitsOf_snoc b v (k + d) _ (by omega) hb, key]
+    have := ih (by omega)
+    omega
+
+theorem ht_dec_one (b : Buf) (v : Nat) (c : UInt8) (hb : b[v]? = some c) :
+    decOf (digitsOf b v (v + 1)) = c.toNat - 48 := by
+  rw [digitsOf_snoc b v v c (Nat.le_refl _) hb, digitsOf_self]
+  simp [decOf, decFrom, dval_def]
+
+theorem ht_dec_snoc (b : Buf) (v k : Nat) (c : UInt8) (hvk : v ≤ k) (hb : b[k]? = some c) :
+    decOf (digitsOf b v (k + 1)) = decOf (digitsOf b v k) * 10 + (c.toNat - 48) := by
+  rw [digitsOf_snoc b v k c hvk hb, decOf, decFrom_snoc, ← decOf, dval_def]
+
+/-- the object in the middle of the digits -/
+def htClMid (b : Buf) (v k : Nat) : PUIntBody := { uiVal := decOf (digitsOf b v k), state := .found, soffs := v }
+
+/-- the digit loop of ParseUIntVal over `[k, j)` -/
+theorem ht_cl_digits (b : Buf) (v j : Nat) (hd : Run isDigit b v j) (hj : j ≤ b.size)
+    (hmax : decOf (digitsOf b v j) ≤ 4294967295) :
+    ∀ d k, j - k = d → v < k → k ≤ j → runLoop clMachine b k (htClMid b v k) = runLoop clMachine b j (htClMid b v j) := by
+  intro d
+  induction d with
+  | zero => intro k h1 _ h3; have : k = j := by omega
+            rw [this]
+  | succ d ih =>
+    intro k h1 h2 h3
+    obtain ⟨c, hc, hcd⟩ := hd k (by omega) (by omega)
+    have hl := ht_digit_not_lws hcd
+    have hle : decOf (digitsOf b v (k + 1)) ≤ 4294967295 := by
+      have := ht_dec_mono b v (k + 1) (by omega) (j - (k + 1)) (by omega)
+      have e : k + 1 + (j - (k + 1)) = j := by omega
+      rw [e] at this; omega
+    have hs : clStep b k c (htClMid b v k) = .cont (k + 1) (htClMid b v (k + 1)) := by
+      unfold clStep htClMid
+      simp only [hl, hcd, Bool.false_eq_true, ↓reduceIte]
+      rw [← ht_dec_snoc b v k c (by omega) hc]
+      rw [if_neg (by omega)]
+    rw [runLoop_cont clMachine hc (by exact hs), if_pos (by omega)]
+    exact ih (k + 1) (by omega) (by omega) (by omega)
+
+/-- **ParseUIntVal (= ParseExpiresVal) on a well-formed value**: optional linear white space, digits `[v, j)` whose
+    decimal value fits 32 bits, optional linear white space, the line end: verdict OK, offset after the line end, the
+    reported string is exactly the digits and the number is their decimal value -/
+theorem ht_uint_run (b : Buf) (i0 v j p e : Nat) (hfit : b.size ≤ 65535) (hl : Lws b i0 v) (hd : Run isDigit b v j)
+    (hvj : v < j) (hmax : decOf (digitsOf b v j) ≤ 4294967295) (hl2 : Lws b j p) (he : Eol b p e) {c2 : UInt8}
+    (h2 : b[e]? = some c2) (hw2 : isWS c2 = false) :
+    parseUIntVal b i0 {} =
+      (e, .ok, { uiVal := decOf (digitsOf b v j), sVal := ⟨v, j - v⟩, state := .fin }) := by
+  obtain ⟨cv, hv, hcvd⟩ := hd v (Nat.le_refl _) hvj
+  have hcvl := ht_digit_not_lws hcvd
+  obtain ⟨cj, hj, hcjl⟩ := lws_eol_first hl2 he
+  have hjl := get?_lt hj
+  have hgt := he.gt
+  have hpe := hl2.le
+  rw [ht_ui_lead_lws b hl hv hcvl {} rfl]
+  unfold parseUIntVal
+  rw [if_neg (by decide)]
+  have hs1 : clStep b v cv {} = .cont (v + 1) (htClMid b v (v + 1)) := by
+    unfold clStep htClMid
+    simp only [hcvl, hcvd, Bool.false_eq_true, ↓reduceIte]
+    rw [ht_dec_one b v cv hv]
+  rw [runLoop_cont clMachine hv (by exact hs1), if_pos (by omega)]
+  rw [ht_cl_digits b v j hd (by omega) hmax (j - (v + 1)) (v + 1) rfl (by omega) (by omega)]
+  refine runLoop_done clMachine hj ?_
+  show clStep b j cj (htClMid b v j) = _
+  unfold clStep htClMid
+  simp only [hcjl, ↓reduceIte]
+  rw [ht_lwsStd_eoh _ clEOH id (skipLWS_of_lws_eol hl2 he h2 hw2)]
+  unfold clEOH clSetSVal
+  simp only [set_eq v j (by omega) (by omega), setPanics_false v j (by omega), Bool.or_false]
+  have : p + (e - p) = e := by omega
+  rw [this]
+
+/-- **ParseCLenVal on a well-formed value**: as `ht_uint_run`, at most 9 digits and a value of at most 2^24 -/
+theorem ht_clen_run (b : Buf) (i0 v j p e : Nat) (hfit : b.size ≤ 65535) (hl : Lws b i0 v) (hd : Run isDigit b v j)
+    (hvj : v < j) (hlen : j - v ≤ 9) (hmax : decOf (digitsOf b v j) ≤ 16777216) (hl2 : Lws b j p) (he : Eol b p e)
+    {c2 : UInt8} (h2 : b[e]? = some c2) (hw2 : isWS c2 = false) :
+    parseCLenVal b i0 {} =
+      (e, .ok, { uiVal := decOf (digitsOf b v j), sVal := ⟨v, j - v⟩, state := .fin }) := by
+  unfold parseCLenVal
+  rw [ht_uint_run b i0 v j p e hfit hl hd hvj (by omega) hl2 he h2 hw2]
+  simp only
+  split
+  · rename_i hc
+    exfalso
+    simp only [MaxCLenValueSize, MaxClenValue, Bool.or_eq_true] at hc
+    rcases hc with hc | hc
+    · have := of_decide_eq_true hc; omega
+    · have := of_decide_eq_true hc; omega
+  · rfl
+
+/-- **Expires**: name, colon, digits; new object. The header's value is the digit string, the number its value. -/
+theorem ht_expires_value (b : Buf) (o n c v j p e : Nat) (hv : PHdrVals) (hfit : b.size ≤ 65535)
+    (hname : NameRun b o n) (hon : o < n) (hws : WsRun b n c) (hnc : n ≤ c) (hcolon : b[c]? = some 58)
+    (ht : getHdrType (b.extract o n) = HdrExpires) (hnew : hv.expires = {})
+    (hl : Lws b (c + 1) v) (hd : Run isDigit b v j) (hvj : v < j) (hmax : decOf (digitsOf b v j) ≤ 4294967295)
+    (hl2 : Lws b j p) (he : Eol b p e) {c2 : UInt8} (h2 : b[e]? = some c2) (hw2 : isWS c2 = false) :
+    parseHdrLine b o {} (some hv) =
+      (e, .ok, hdrAt HdrExpires o n ⟨v, j - v⟩ .fin,
+        some { hv with expires := { uiVal := decOf (digitsOf b v j), sVal := ⟨v, j - v⟩, state := .fin } }) := by
+  have hp : parseUIntVal b (c + 1) hv.expires =
+      (e, .ok, { uiVal := decOf (digitsOf b v j), sVal := ⟨v, j - v⟩, state := .fin }) := by
+    rw [hnew]; exact ht_uint_run b (c + 1) v j p e hfit hl hd hvj hmax hl2 he h2 hw2
+  exact ht_line_expires b o n c hv hfit hname hon hws hnc hcolon ht (by rw [hnew]; rfl) hp
+
+/-- **Content-Length**: name, colon, at most 9 digits with a value of at most 2^24; new object -/
+theorem ht_clen_value (b : Buf) (o n c v j p e : Nat) (hv : PHdrVals) (hfit : b.size ≤ 65535)
+    (hname : NameRun b o n) (hon : o < n) (hws : WsRun b n c) (hnc : n ≤ c) (hcolon : b[c]? = some 58)
+    (ht : getHdrType (b.extract o n) = HdrCLen) (hnew : hv.clen = {})
+    (hl : Lws b (c + 1) v) (hd : Run isDigit b v j) (hvj : v < j) (hlen : j - v ≤ 9)
+    (hmax : decOf (digitsOf b v j) ≤ 16777216)
+    (hl2 : Lws b j p) (he : Eol b p e) {c2 : UInt8} (h2 : b[e]? = some c2) (hw2 : isWS c2 = false) :
+    parseHdrLine b o {} (some hv) =
+      (e, .ok, hdrAt HdrCLen o n ⟨v, j - v⟩ .fin,
+        some { hv with clen := { uiVal := decOf (digitsOf b v j), sVal := ⟨v, j - v⟩, state := .fin } }) := by
+  have hp : parseCLenVal b (c + 1) hv.clen =
+      (e, .ok, { uiVal := decOf (digitsOf b v j), sVal := ⟨v, j - v⟩, state := .fin }) := by
+    rw [hnew]; exact ht_clen_run b (c + 1) v j p e hfit hl hd hvj hlen hmax hl2 he h2 hw2
+  exact ht_line_clen b o n c hv hfit hname hon hws hnc hcolon ht (by rw [hnew]; rfl) hp
+
+/-! ### (2) CSeq: digits, white space, a method token -/
+
+def htCsMid (b : Buf) (v k : Nat) : PCSeqBody := { cseqNo := decOf (digitsOf b v k), state := .foundDigit, soffs := v }
+
+theorem ht_cs_digits (b : Buf) (v j : Nat) (hd : Run isDigit b v j) (hj : j ≤ b.size)
+    (hmax : decOf (digitsOf b v j) ≤ 4294967295) :
+    ∀ d k, j - k = d → v < k → k ≤ j → runLoop csMachine b k (htCsMid b v k) = runLoop csMachine b j (htCsMid b v j) := by
+  intro d
+  induction d with
+  | zero => intro k h1 _ h3; have : k = j := by omega
+            rw [this]
+  | succ d ih =>
+    intro k h1 h2 h3
+    obtain ⟨c, hc, hcd⟩ := hd k (by omega) (by omega)
+    have hl := ht_digit_not_lws hcd
+    have hle : decOf (digitsOf b v (k + 1)) ≤ 4294967295 := by
+      have := ht_dec_mono b v (k + 1) (by omega) (j - (k + 1)) (by omega)
+      have e : k + 1 + (j - (k + 1)) = j := by omega
+      rw [e] at this; omega
+    have hs : csStep b k c (htCsMid b v k) = .cont (k + 1) (htCsMid b v (k + 1)) := by
+      unfold csStep htCsMid
+      simp only [hl, hcd, Bool.false_eq_true, ↓reduceIte]
+      rw [← ht_dec_snoc b v k c (by omega) hc]
+      rw [if_neg (by omega)]
+    rw [runLoop_cont csMachine hc (by exact hs), if_pos (by omega)]
+    exact ih (k + 1) (by omega) (by omega) (by omega)
+
+/-- the object while the method token is being read -/
+def htCsMeth (b : Buf) (v j m : Nat) : PCSeqBody :=
+  { cseqNo := decOf (digitsOf b v j), cseq := ⟨v, j - v⟩, v := ⟨v, j - v⟩, state := .foundMethod, soffs := m }
+
+theorem ht_cs_meth_step (b : Buf) (v j m k : Nat) (c : UInt8) (hc : isLWSch c = false) :
+    csStep b k c (htCsMeth b v j m) = .cont (k + 1) (htCsMeth b v j m) := by
+  unfold csStep htCsMeth
+  simp only [hc, Bool.false_eq_true, ↓reduceIte]
+  split <;> rfl
+
+/-- **ParseCSeqVal on a well-formed value**: optional linear white space, at most 10 digits `[v, j)` whose value fits
+    32 bits, linear white space (at least one byte), a method `[m, t)` of bytes other than SP / HT / CR / LF, optional
+    linear white space, the line end: verdict OK, offset after the line end; the number is the decimal value of the
+    digits, the method is classified from its text, and the value span runs from the first digit to the end of the
+    method -/
+theorem ht_cseq_run (b : Buf) (i0 v j m t p e : Nat) (hfit : b.size ≤ 65535) (hl : Lws b i0 v)
+    (hd : Run isDigit b v j) (hvj : v < j) (hlen : j - v ≤ 10) (hmax : decOf (digitsOf b v j) ≤ 4294967295)
+    (hl1 : Lws b j m) (hjm : j < m) (htok : TokenRun b m t) (hmt : m < t) (hl2 : Lws b t p) (he : Eol b p e)
+    {c2 : UInt8} (h2 : b[e]? = some c2) (hw2 : isWS c2 = false) :
+    parseCSeqVal b i0 {} =
+      (e, .ok, { cseqNo := decOf (digitsOf b v j), methodNo := getMethodNo (b.extract m t), cseq := ⟨v, j - v⟩,
+                 method := ⟨m, t - m⟩, v := ⟨v, t - v⟩, state := .fin }) := by
+  obtain ⟨cv, hv, hcvd⟩ := hd v (Nat.le_refl _) hvj
+  have hcvl := ht_digit_not_lws hcvd
+  obtain ⟨cj, hj, hcjl⟩ := hl1.first hjm
+  obtain ⟨cm, hm, hcml⟩ := htok m (Nat.le_refl _) hmt
+  obtain ⟨ct, htt, hctl⟩ := lws_eol_first hl2 he
+  have hjl := get?_lt hj
+  have htl := get?_lt htt
+  have hgt := he.gt
+  have hpe := hl2.le
+  rw [ht_cs_lead_lws b hl hv hcvl {} rfl]
+  unfold parseCSeqVal
+  rw [if_neg (by decide)]
+  -- the first digit
+  have hs1 : csStep b v cv {} = .cont (v + 1) (htCsMid b v (v + 1)) := by
+    unfold csStep htCsMid
+    simp only [hcvl, hcvd, Bool.false_eq_true, ↓reduceIte]
+    rw [ht_dec_one b v cv hv]
+  rw [runLoop_cont csMachine hv (by exact hs1), if_pos (by omega)]
+  rw [ht_cs_digits b v j hd (by omega) hmax (j - (v + 1)) (v + 1) rfl (by omega) (by omega)]
+  -- the white space after the number
+  have hs2 : csStep b j cj (htCsMid b v j) =
+      .cont m { cseqNo := decOf (digitsOf b v j), cseq := ⟨v, j - v⟩, v := ⟨v, j - v⟩, state := .endDigit, soffs := v } := by
+    unfold csStep htCsMid
+    simp only [hcjl, ↓reduceIte]
+    rw [ht_lwsStd_ok _ (csEOH b) id (skipLWS_of_lws hl1 hm hcml)]
+    simp only [set_eq v j (by omega) (by omega), setPanics_false v j (by omega), Bool.or_false]
+  rw [runLoop_cont csMachine hj (by exact hs2), if_pos hjm]
+  -- the first byte of the method
+  have hs3 : csStep b m cm { cseqNo := decOf (digitsOf b v j), cseq := ⟨v, j - v⟩, v := ⟨v, j - v⟩, state := .endDigit, soffs := v } =
+      .cont (m + 1) (htCsMeth b v j m) := by
+    unfold csStep htCsMeth
+    simp only [hcml, Bool.false_eq_true, ↓reduceIte]
+    split <;> rfl
+  rw [runLoop_cont csMachine hm (by exact hs3), if_pos (by omega)]
+  -- the rest of the method
+  have hrun : runLoop csMachine b (m + 1) (htCsMeth b v j m) = runLoop csMachine b t (htCsMeth b v j m) := by
+    refine runLoop_run csMachine b (fun c => !isLWSch c) _ (fun k c _ hc => ?_) (m + 1) t (by omega)
+      (ht_tokenrun_run (fun k h1 h2 => htok k (by omega) h2))
+    have hc' : isLWSch c = false := by simpa using hc
+    exact ht_cs_meth_step b v j m k c hc'
+  rw [hrun]
+  -- the end of the line
+  refine runLoop_done csMachine htt ?_
+  show csStep b t ct (htCsMeth b v j m) = _
+  unfold csStep htCsMeth
+  simp only [hctl, ↓reduceIte]
+  rw [ht_lwsStd_eoh _ (csEOH b) id (skipLWS_of_lws_eol hl2 he h2 hw2)]
+  unfold csEOH csSetMethod
+  simp only [set_eq m t (by omega) (by omega), setPanics_false m t (by omega), Bool.or_false,
+    extend_eq ⟨v, j - v⟩ t (by show v ≤ t; omega) (by omega),
+    extendPanics_false (⟨v, j - v⟩ : PField) t (by show v ≤ t; omega)]
+  unfold csFinish
+  have hget : PField.get? b ⟨m, t - m⟩ = some (b.extract m t) := by
+    rw [field_get? b m (t - m) (by omega) hfit]; congr 2; omega
+  simp only [hget]
+  have hpe2 : p + (e - p) = e := by omega
+  rw [hpe2]
+  split
+  · rename_i hc
+    exfalso
+    simp only [MaxCSeqNValueSize, Bool.or_eq_true] at hc
+    rcases hc with hc | hc
+    · have := of_decide_eq_true hc; omega
+    · have := of_decide_eq_true hc; omega
+  · rfl
+
+/-- **CSeq**: name, colon, a CSeq value; new object. The header's value runs from the number through the method. -/
+theorem ht_cseq_value (b : Buf) (o n c v j m t p e : Nat) (hv : PHdrVals) (hfit : b.size ≤ 65535)
+    (hname : NameRun b o n) (hon : o < n) (hws : WsRun b n c) (hnc : n ≤ c) (hcolon : b[c]? = some 58)
+    (ht : getHdrType (b.extract o n) = HdrCSeq) (hnew : hv.cseq = {})
+    (hl : Lws b (c + 1) v) (hd : Run isDigit b v j) (hvj : v < j) (hlen : j - v ≤ 10)
+    (hmax : decOf (digitsOf b v j) ≤ 4294967295) (hl1 : Lws b j m) (hjm : j < m) (htok : TokenRun b m t) (hmt : m < t)
+    (hl2 : Lws b t p) (he : Eol b p e) {c2 : UInt8} (h2 : b[e]? = some c2) (hw2 : isWS c2 = false) :
+    parseHdrLine b o {} (some hv) =
+      (e, .ok, hdrAt HdrCSeq o n ⟨v, t - v⟩ .fin,
+        some { hv with cseq := { cseqNo := decOf (digitsOf b v j), methodNo := getMethodNo (b.extract m t),
+                                 cseq := ⟨v, j - v⟩, method := ⟨m, t - m⟩, v := ⟨v, t - v⟩, state := .fin } }) := by
+  have hp := ht_cseq_run b (c + 1) v j m t p e hfit hl hd hvj hlen hmax hl1 hjm htok hmt hl2 he h2 hw2
+  rw [← hnew] at hp
+  exact ht_line_cseq b o n c hv hfit hname hon hws hnc hcolon ht (by rw [hnew]; rfl) hp
+
+/-! ### generic treatment with a values object: other header types, and repeated single-valued headers -/
+
+/-- the header is scanned generically although a values object is supplied: its type has no value parser, or it is
+    a single-valued type (From, To, Call-ID, CSeq, Content-Length, Expires) whose value is already parsed -/
+def HtGen (t : Nat) (hv : PHdrVals) : Prop :=
+  IsOther t ∨ (t = HdrFrom ∧ hv.from_.parsed = true) ∨ (t = HdrTo ∧ hv.to.parsed = true) ∨
+  (t = HdrCallID ∧ hv.callid.parsed = true) ∨ (t = HdrCSeq ∧ hv.cseq.parsed = true) ∨
+  (t = HdrCLen ∧ hv.clen.parsed = true) ∨ (t = HdrExpires ∧ hv.expires.parsed = true)
+
+theorem ht_pb_gen (b : Buf) (i : Nat) (h : Hdr) (hv : PHdrVals) (hg : HtGen h.type hv) :
+    parseBody b i h (some hv) = (i, .ok, h, some hv) := by
+  rcases hg with hg | ⟨ht, hp⟩ | ⟨ht, hp⟩ | ⟨ht, hp⟩ | ⟨ht, hp⟩ | ⟨ht, hp⟩ | ⟨ht, hp⟩
+  · exact parseBody_generic b i h (some hv) (Or.inr hg)
+  all_goals (unfold parseBody; simp +decide only [ht, hp, ↓reduceIte, Bool.not_true, Bool.false_eq_true])
+
+theorem ht_after_gen (b : Buf) (o n i : Nat) (hv : PHdrVals) (hon : o < n) (hn : n ≤ b.size)
+    (hfit : b.size ≤ 65535) (hg : HtGen (getHdrType (b.extract o n)) hv) :
+    hlAfterColon b i (hdrAt 0 o n {} .bodyStart) (some hv) =
+      .cont i (hdrAt (getHdrType (b.extract o n)) o n {} .bodyStart, some hv) := by
+  unfold hlAfterColon hdrAt
+  have hget : PField.get? b ⟨o, n - o⟩ = some (b.extract o n) := by
+    have := field_get? b o (n - o) (by omega) hfit
+    rw [this]; congr 2; omega
+  simp only [hget]
+  rw [ht_pb_gen b i _ hv hg]
+  rfl
+
+/-- a header line with a value, scanned generically although a values object is supplied -/
+theorem ht_line_gen (b : Buf) (o n c v ve p e : Nat) (hv : PHdrVals) (hfit : b.size ≤ 65535)
+    (hname : NameRun b o n) (hon : o < n) (hws : WsRun b n c) (hnc : n ≤ c) (hcolon : b[c]? = some 58)
+    (hlws : Lws b (c + 1) v) (hval : ValRun b v ve p) (he : Eol b p e) {c2 : UInt8} (h2 : b[e]? = some c2)
+    (hw2 : isWS c2 = false) (hg : HtGen (getHdrType (b.extract o n)) hv) :
+    parseHdrLine b o {} (some hv) =
+      (e, .ok, hdrAt (getHdrType (b.extract o n)) o n ⟨v, ve - v⟩ .fin, some hv) := by
+  have hcl := get?_lt hcolon
+  have hcv := hlws.le
+  obtain ⟨cv, hvv, hcvl⟩ := hval.first
+  have hvl := get?_lt hvv
+  have hafter := ht_after_gen b o n (c + 1) hv hon (by omega) hfit hg
+  rw [ht_prefix_cont b o n c (some hv) hfit hname hon hws hnc hcolon hafter]
+  have hc1 : ∃ x, b[c + 1]? = some x := by
+    by_cases h1 : c + 1 < v
+    · obtain ⟨x, hx, _⟩ := hlws.first h1; exact ⟨x, hx⟩
+    · have : c + 1 = v := by omega
+      rw [this]; exact ⟨cv, hvv⟩
+  obtain ⟨x, hx⟩ := hc1
+  have hstep : hlStep b (c + 1) x (hdrAt (getHdrType (b.extract o n)) o n {} .bodyStart, some hv) =
+      .cont (v + 1) (hdrAt (getHdrType (b.extract o n)) o n (PField.set v v) .val, some hv) := by
+    unfold hlStep hdrAt
+    simp only
+    rw [skipLWS_of_lws hlws hvv hcvl]
+  rw [runLoop_cont hlMachine hx (by exact hstep), if_pos (by omega)]
+  have hoffs : (PField.set v v).offs = v := by unfold PField.set; exact trunc16_id (by omega)
+  have := hl_val_run b (some hv) hval he h2 hw2 hfit (hdrAt (getHdrType (b.extract o n)) o n (PField.set v v) .val) rfl
+    (by show (PField.set v v).offs ≤ v; rw [hoffs]; exact Nat.le_refl _) rfl
+  rw [this]
+  show (e, Err.ok, hdrAt (getHdrType (b.extract o n)) o n ⟨(PField.set v v).offs, ve - (PField.set v v).offs⟩ .fin, some hv) = _
+  rw [hoffs]
+
+/-- … and with an empty value -/
+theorem ht_line_gen_empty (b : Buf) (o n c p e : Nat) (hv : PHdrVals) (hfit : b.size ≤ 65535)
+    (hname : NameRun b o n) (hon : o < n) (hws : WsRun b n c) (hnc : n ≤ c) (hcolon : b[c]? = some 58)
+    (hlws : Lws b (c + 1) p) (he : Eol b p e) {c2 : UInt8} (h2 : b[e]? = some c2)
+    (hw2 : isWS c2 = false) (hg : HtGen (getHdrType (b.extract o n)) hv) :
+    parseHdrLine b o {} (some hv) = (e, .ok, hdrAt (getHdrType (b.extract o n)) o n {} .fin, some hv) := by
+  have hcl := get?_lt hcolon
+  have hcv := hlws.le
+  obtain ⟨cp, hp, _, _, hpl⟩ := he.first
+  have hgt := he.gt
+  have hafter := ht_after_gen b o n (c + 1) hv hon (by omega) hfit hg
+  rw [ht_prefix_cont b o n c (some hv) hfit hname hon hws hnc hcolon hafter]
+  have hc1 : ∃ x, b[c + 1]? = some x := by
+    by_cases h1 : c + 1 < p
+    · obtain ⟨x, hx, _⟩ := hlws.first h1; exact ⟨x, hx⟩
+    · have : c + 1 = p := by omega
+      rw [this]; exact ⟨cp, hp⟩
+  obtain ⟨x, hx⟩ := hc1
+  have hdone : hlStep b (c + 1) x (hdrAt (getHdrType (b.extract o n)) o n {} .bodyStart, some hv) =
+      .done e .ok (hdrAt (getHdrType (b.extract o n)) o n {} .fin, some hv) := by
+    unfold hlStep hdrAt
+    simp only
+    rw [skipLWS_of_lws_eol hlws he h2 hw2]
+    simp only
+    have : p + (e - p) = e := by omega
+    rw [this]
+  rw [runLoop_done hlMachine hx (by exact hdone)]
+
+theorem HdrLineAt.ht_parse {b : Buf} {o e : Nat} {h : Hdr} (H : HdrLineAt b o e h) (hv : PHdrVals)
+    (hfit : b.size ≤ 65535) (hg : HtGen h.type hv) : parseHdrLine b o {} (some hv) = (e, .ok, h, some hv) := by
+  rcases H with ⟨n, c, v, ve, p, c2, h1, h2, h3, h4, h5, h6, h7, h8, h9, h10, rfl⟩ |
+    ⟨n, c, p, c2, h1, h2, h3, h4, h5, h6, h8, h9, h10, rfl⟩
+  · exact ht_line_gen b o n c v ve p e hv hfit h1 h2 h3 h4 h5 h6 h7 h8 h9 h10 hg
+  · exact ht_line_gen_empty b o n c p e hv hfit h1 h2 h3 h4 h5 h6 h8 h9 h10 hg
+
+/-! ### (3) accumulation over several Contact header lines of one message -/
+
+theorem ht_vallist_fin {h : Nat} {b : Buf} {o o' : Nat} {rs : List PFromBody} (H : ValList h b o rs o') :
+    ∀ r ∈ rs, r.state = .fin := by
+  induction H with
+  | last o o' r hv =>
+    intro x hx
+    have : x = r := by simpa using hx
+    rw [this]; exact (ht_navalue_v hv).choose_spec.choose_spec.2.2.2.2
+  | cons o o1 o' r rs hv _ ih =>
+    intro x hx
+    rcases List.mem_cons.1 hx with hx | hx
+    · rw [hx]; exact (ht_navalue_v hv).choose_spec.choose_spec.2.2.2.2
+    · exact ih x hx
+
+theorem ht_vallist_range {h : Nat} {b : Buf} {o o' : Nat} {rs : List PFromBody} (H : ValList h b o rs o') :
+    o < o' ∧ o' ≤ b.size := by
+  induction H with
+  | last o o' r hv => exact hv.range
+  | cons o o1 o' r rs hv _ ih => have := hv.range; omega
+
+/-- after the values of a line the contacts object is ready for the next line -/
+theorem ht_acceptAll_ready (rs : List PFromBody) (hne : rs ≠ []) (hfin : ∀ r ∈ rs, r.state = .fin) :
+    ∀ c : PContacts, CtClean c → HtCtReady (c.acceptAll rs) := by
+  induction rs with
+  | nil => exact absurd rfl hne
+  | cons r rs ih =>
+    intro c hc
+    cases rs with
+    | nil =>
+      have := done_facts c r hc (hfin r List.mem_cons_self)
+      exact ⟨this.2.1, this.1⟩
+    | cons r2 rs' =>
+      rw [acceptAll_cons2]
+      exact ih (by simp) (fun x hx => hfin x (List.mem_cons_of_mem _ hx)) (c.next r) (next_clean c r hc).1
+
+theorem ht_htLine_eq (c : PContacts) (rs : List PFromBody) : c.htLine rs = c.wrap.htBump.acceptAll rs := by
+  unfold PContacts.htLine; rw [ht_bump_wrap]
+
+theorem ht_htLine_ready (c : PContacts) (rs : List PFromBody) (hr : HtCtReady c) (hne : rs ≠ [])
+    (hfin : ∀ r ∈ rs, r.state = .fin) : HtCtReady (c.htLine rs) := by
+  rw [ht_htLine_eq]
+  exact ht_acceptAll_ready rs hne hfin c.wrap.htBump hr.1
+
+/-- **one Contact line**: the header counter goes up by one, the value counter by the number of values -/
+theorem ht_htLine_hNo (c : PContacts) (rs : List PFromBody) : (c.htLine rs).hNo = c.hNo + 1 := by
+  rw [ht_htLine_eq, ht_ctAcceptAll_hNo]
+  show c.wrap.hNo + 1 = _
+  rw [(wrap_scalars c).2.2.1]
+
+theorem ht_htLine_n (c : PContacts) (rs : List PFromBody) : (c.htLine rs).n = c.n + rs.length := by
+  rw [ht_htLine_eq, ctAcceptAll_n]
+  show c.wrap.n + _ = _
+  rw [(wrap_scalars c).1]
+
+theorem ht_htLine_size (c : PContacts) (rs : List PFromBody) : (c.htLine rs).vals.size = c.vals.size := by
+  rw [ht_htLine_eq, ctAcceptAll_size]
+  show c.wrap.vals.size = _
+  rw [(wrap_scalars c).2.1]
+
+theorem ht_htLine_keep (c : PContacts) (rs : List PFromBody) (j : Nat) (hj : j < c.n) :
+    (c.htLine rs).vals[j]! = c.vals[j]! := by
+  rw [ht_htLine_eq, ctAcceptAll_keep _ _ j (by show j < c.wrap.n; rw [(wrap_scalars c).1]; exact hj)]
+  show c.wrap.vals[j]! = _
+  rw [(wrap_scalars c).2.1]
+
+theorem ht_htLine_stored (c : PContacts) (rs : List PFromBody) (k : Nat) (hk : k < rs.length)
+    (hin : c.n + k < c.vals.size) : (c.htLine rs).vals[c.n + k]! = rs[k] := by
+  have hw := wrap_scalars c
+  rw [ht_htLine_eq]
+  have := ctAcceptAll_stored c.wrap.htBump rs k hk (by show c.wrap.n + k < c.wrap.vals.size; rw [hw.1, hw.2.1]; exact hin)
+  have e : c.wrap.htBump.n = c.n := hw.1
+  rw [e] at this
+  exact this
+
+theorem ht_htLine_maxE (c : PContacts) (rs : List PFromBody) :
+    (c.htLine rs).maxExpires = rs.foldl (fun m r => max m r.expires) c.maxExpires := by
+  rw [ht_htLine_eq, ctAcceptAll_maxE]
+  show rs.foldl _ c.wrap.maxExpires = _
+  rw [(wrap_scalars c).2.2.2.1]
+
+/-- the minimum the next value is compared with: 2^32-1 before the first value of the message -/
+def PContacts.htMin0 (c : PContacts) : Nat := if c.n == 0 then 4294967295 else c.minExpires
+
+theorem ht_htLine_minE (c : PContacts) (rs : List PFromBody) (hne : rs ≠ []) :
+    (c.htLine rs).minExpires = rs.foldl (fun m r => min m r.expires) c.htMin0 := by
+  rw [ht_htLine_eq, ctAcceptAll_minE _ _ hne]
+  have hw := wrap_scalars c
+  show rs.foldl _ (if c.wrap.n == 0 then 4294967295 else c.wrap.minExpires) = _
+  rw [hw.1, hw.2.2.2.2.1]; rfl
+
+/-- what a sequence of Contact header lines (the value lists `rss`, in order) does to the contacts object -/
+def PContacts.htLines (c : PContacts) (rss : List (List PFromBody)) : PContacts := rss.foldl PContacts.htLine c
+
+theorem ht_htLines_cons (c : PContacts) (rs : List PFromBody) (rss : List (List PFromBody)) :
+    c.htLines (rs :: rss) = (c.htLine rs).htLines rss := rfl
+
+/-- **`HNo` is the number of Contact header lines** -/
+theorem ht_htLines_hNo (c : PContacts) (rss : List (List PFromBody)) : (c.htLines rss).hNo = c.hNo + rss.length := by
+  induction rss generalizing c with
+  | nil => rfl
+  | cons rs rss ih => rw [ht_htLines_cons, ih, ht_htLine_hNo, List.length_cons]; omega
+
+/-- **`N` is the total number of values of all Contact lines** (also those beyond the caller's array) -/
+theorem ht_htLines_n (c : PContacts) (rss : List (List PFromBody)) :
+    (c.htLines rss).n = c.n + rss.flatten.length := by
+  induction rss generalizing c with
+  | nil => rfl
+  | cons rs rss ih => rw [ht_htLines_cons, ih, ht_htLine_n, List.flatten_cons, List.length_append]; omega
+
+theorem ht_htLines_size (c : PContacts) (rss : List (List PFromBody)) : (c.htLines rss).vals.size = c.vals.size := by
+  induction rss generalizing c with
+  | nil => rfl
+  | cons rs rss ih => rw [ht_htLines_cons, ih, ht_htLine_size]
+
+theorem ht_htLines_keep (c : PContacts) (rss : List (List PFromBody)) (j : Nat) (hj : j < c.n) :
+    (c.htLines rss).vals[j]! = c.vals[j]! := by
+  induction rss generalizing c with
+  | nil => rfl
+  | cons rs rss ih =>
+    rw [ht_htLines_cons, ih _ (by rw [ht_htLine_n]; omega), ht_htLine_keep c rs j hj]
+
+/-- **the stored values are the values of all Contact lines, in order** (those that fit the caller's array) -/
+theorem ht_htLines_stored (c : PContacts) (rss : List (List PFromBody)) (k : Nat) (hk : k < rss.flatten.length)
+    (hin : c.n + k < c.vals.size) : (c.htLines rss).vals[c.n + k]! = rss.flatten[k] := by
+  induction rss generalizing c k with
+  | nil => simp at hk
+  | cons rs rss ih =>
+    rw [ht_htLines_cons]
+    simp only [List.flatten_cons]
+    by_cases h1 : k < rs.length
+    · rw [ht_htLines_keep _ _ _ (by rw [ht_htLine_n]; omega), ht_htLine_stored c rs k h1 hin,
+        List.getElem_append_left h1]
+    · have hk' : k - rs.length < rss.flatten.length := by
+        simp only [List.flatten_cons, List.length_append] at hk; omega
+      have := ih (c.htLine rs) (k - rs.length) hk' (by rw [ht_htLine_n, ht_htLine_size]; omega)
+      rw [ht_htLine_n] at this
+      have e : c.n + rs.length + (k - rs.length) = c.n + k := by omega
+      rw [e] at this
+      rw [this, List.getElem_append_right (by omega)]
+
+/-- **the maximum expires summarises the values of all Contact lines** -/
+theorem ht_htLines_maxE (c : PContacts) (rss : List (List PFromBody)) :
+    (c.htLines rss).maxExpires = rss.flatten.foldl (fun m r => max m r.expires) c.maxExpires := by
+  induction rss generalizing c with
+  | nil => rfl
+  | cons rs rss ih => rw [ht_htLines_cons, ih, ht_htLine_maxE, List.flatten_cons, List.foldl_append]
+
+/-- **the minimum expires summarises the values of all Contact lines**, starting from 2^32-1 for the first value of
+    the message -/
+theorem ht_htLines_minE (c : PContacts) (rss : List (List PFromBody)) (hne : ∀ rs ∈ rss, rs ≠ []) :
+    (c.htLines rss).minExpires =
+      if rss = [] then c.minExpires else rss.flatten.foldl (fun m r => min m r.expires) c.htMin0 := by
+  induction rss generalizing c with
+  | nil => rfl
+  | cons rs rss ih =>
+    have hrs : rs ≠ [] := hne rs List.mem_cons_self
+    have h0 : (c.htLine rs).htMin0 = (c.htLine rs).minExpires := by
+      unfold PContacts.htMin0
+      have hl : rs.length ≠ 0 := by
+        intro h; exact hrs (List.length_eq_zero_iff.1 h)
+      have hn0 : (c.htLine rs).n ≠ 0 := by rw [ht_htLine_n]; omega
+      have : ((c.htLine rs).n == 0) = false := by rw [beq_eq_false_iff_ne]; exact hn0
+      rw [this]; rfl
+    rw [ht_htLines_cons, ih _ (fun x hx => hne x (List.mem_cons_of_mem _ hx))]
+    rw [if_neg (List.cons_ne_nil rs rss), List.flatten_cons, List.foldl_append, ← ht_htLine_minE c rs hrs]
+    by_cases hnil : rss = []
+    · rw [if_pos hnil, hnil]; rfl
+    · rw [if_neg hnil, h0]
+
+theorem ht_htLines_ready (c : PContacts) (rss : List (List PFromBody)) (hr : HtCtReady c)
+    (hne : ∀ rs ∈ rss, rs ≠ []) (hfin : ∀ rs ∈ rss, ∀ r ∈ rs, r.state = .fin) : HtCtReady (c.htLines rss) := by
+  induction rss generalizing c with
+  | nil => exact hr
+  | cons rs rss ih =>
+    rw [ht_htLines_cons]
+    exact ih _ (ht_htLine_ready c rs hr (hne rs List.mem_cons_self) (hfin rs List.mem_cons_self))
+      (fun x hx => hne x (List.mem_cons_of_mem _ hx)) (fun x hx => hfin x (List.mem_cons_of_mem _ hx))
 
 end Sipsp
